@@ -36,13 +36,42 @@ def build_index(funcs, repo=REPO):
     """key (as produced by interp.normalize_callee) -> Function"""
     index = {}
     for name, f in funcs.items():
+        if "::promoted[" in name:
+            base, suffix = name.split("::promoted[", 1)
+            mi = re.search(r"<impl at ([^:]+):(\d+):\d+: \d+:\d+>", base)
+            method = base.split("::")[-1]
+            key = None
+            if mi:
+                m = IMPL_RE.match(source_line(repo, mi.group(1), int(mi.group(2))))
+                if m:
+                    trait, ty = m.group(1), m.group(2)
+                    key = ("<%s as %s>::%s" % (type_key(ty), type_key(trait), method)) if trait else "%s::%s" % (type_key(ty), method)
+            else:
+                key = method
+            if key:
+                index[key + "::promoted[" + suffix] = f
+            index[name] = f
+            continue
         if "{closure" in name or "{constant" in name or "::{" in name:
             index[name] = f
+            if f.params:
+                mc = re.search(r"\{closure@[^}]*\}", f.params[0][1])
+                if mc:
+                    index[mc.group(0)] = f       # closures are looked up by their source location
             continue
         method = name.split("::")[-1]
         if f.impl_at:
-            m = IMPL_RE.match(source_line(repo, *f.impl_at))
+            src = source_line(repo, *f.impl_at)
+            m = IMPL_RE.match(src)
             if not m:
+                if "derive" in src and f.params:
+                    # #[derive(..)] impls: the trait follows from the method, the type from the receiver
+                    trait = {"eq": "PartialEq", "ne": "PartialEq", "clone": "Clone", "fmt": "Debug", "cmp": "Ord", "partial_cmp": "PartialOrd", "hash": "Hash"}.get(method)
+                    ty = type_key(f.params[0][1].lstrip("&").replace("mut ", ""))
+                    if trait:
+                        index.setdefault("<%s as %s>::%s" % (ty, trait, method), f)
+                elif "derive" in src and method == "default" and f.ret:
+                    index.setdefault("<%s as Default>::default" % type_key(f.ret), f)
                 continue
             trait, ty = m.group(1), m.group(2)
             tk = type_key(ty)
